@@ -49,7 +49,7 @@ RULE = ("generated packages: one macro module (3-7 macros; private, dashed, Unic
         "Non-trivial = package whose clients use >= 2 distinct require shapes and whose byte-code path was detected; "
         "distinct by rendered files. Plus extension-clause cases (file names x {hy FILE, python -m hy FILE, "
         "runhy.run_path, import}).")
-FLOOR = {"quick": 150, "thorough": 150}
+FLOOR = {"quick": 100, "thorough": 150}
 BUDGET = {"quick": 40, "thorough": 480}
 CASE_TIMEOUT = 150
 NEEDS_EVENTS = True      # events = positive byte-code-path detections + extension-clause observations
